@@ -12,7 +12,9 @@
    comparisons are resolved by [b] carried by the Suggest event (one boolean per rung level).
    Self-contained on purpose (does not use model/Rung.v).  No proofs here. *)
 From Verif Require Import model.Base.
+From Verif Require model.Rung.   (* only for the constructor layer at the end: qualified names, read-only *)
 From Coq Require Import Qabs Qround.
+From Coq Require Strings.String.
 
 Inductive mode := Min | Max.
 Inductive variant := VPromotion | VPasha | VCost | VRush.
@@ -748,4 +750,43 @@ Definition information_for_rungs (st : state) : list (Z * nat) :=
   match st_sys st with
   | [] => []
   | rs :: _ => map (fun r => (r_level r, length (r_data r))) (rs_rungs rs)
+  end.
+
+(* ---- constructor: HyperbandScheduler.__init__ -> configuration ------------------------------------------
+   The maximum resource and the rung levels are not inputs of the model but computed from the constructor
+   arguments with b-rung's model of TrialSchedulerWithSearcher._infer_max_resource_level (max_t argument,
+   else config_space[max_resource_attr], else config_space["epochs" / "max_t" / "max_epochs"]) and of
+   successive_halving_rung_levels (model/Rung.v); promotion quantiles q_j = r_j / r_{j+1} and
+   num_brackets = min(brackets, len(rung_levels) + 1) as in HyperbandBracketManager.__init__.
+   None = the constructor raises (max_t cannot be determined / an assertion on the rung levels fails). *)
+Record ctor := mkCtor {
+  k_variant : variant;
+  k_mode : mode;
+  k_max_t : option Z;                          (* max_t argument *)
+  k_mra : option String.string;                (* max_resource_attr *)
+  k_cspace : Rung.MaxT.cspace;                 (* config_space: Some v = constant, None = hyperparameter *)
+  k_rung_levels : option (list Z);
+  k_grace : Z;
+  k_rf : option Q;
+  k_incr : option Z;
+  k_brackets : nat;
+  k_per_bracket : bool;
+  k_cost : bool;
+  k_nthr : Z;
+  k_tol : Q;
+  k_sd_rungs : bool
+}.
+Definition make_config (k : ctor) : option config :=
+  match Rung.MaxT.infer_max_resource_level (k_max_t k) (k_mra k) (k_cspace k) with
+  | None => None
+  | Some max_t =>
+      match Rung.sh_rung_levels (k_rung_levels k) (k_grace k) (k_rf k) (k_incr k) max_t with
+      | None => None
+      | Some [] => None
+      | Some levels =>
+          Some (mkC (k_variant k) (k_mode k) max_t (combine levels (Rung.mk_quantiles levels max_t))
+                    (Nat.min (k_brackets k) (S (length levels))) (k_per_bracket k)
+                    (match k_mra k with Some _ => true | None => false end)
+                    (k_cost k) (k_nthr k) (k_tol k) (k_sd_rungs k))
+      end
   end.
